@@ -43,6 +43,9 @@ LEVEL_NOTE = ("Trusted: Coq kernel + vm_compute; the hand-written models of the 
               "'equal to the default' is Python/NumPy ==, so -0.0 stored under default 0.0 comes back as 0.0 and 1.0 under default 1 as the data's own kind. "
               "Object identity (caching, aliasing of returned arrays, in-place updates of the stored values) does not exist in the pure model: it is covered by "
               "the multi-step stream, which is checked by the property oracle on the implementation only, not by Coq. "
+              "Sessions over several constant / function column objects (explicit state: current fields of each object, declared size, call count of the one stateful binding) ARE "
+              "modelled (sess_run) and evaluated in Coq; the declared type of run-length / dictionary / sparse columns is not a model parameter at all (independence by construction, "
+              "checked by running them under every declaration). "
               "Scale: the theorems hold for every length, and the correspondence evaluates the model on dictionaries of up to ~700 entries, runs / lengths / sparse indices up to 2^16+1; "
               "dictionaries of >= 2^15 entries, sparse columns with >= 2^15 stored values and sequences of >= 2^15 runs are judged by the property oracle only "
               "(the list-based model needs n*k steps, the literal would be megabytes); sizes at 2^31 / 2^32 are not exercised at all. "
@@ -52,7 +55,8 @@ COQ_IMPORTS = "From Orso Require Import Model.C09."
 COQ_CHECKS = {"rle": "c09_check_rle", "dict": "c09_check_dict", "sparse": "c09_check_sparse",
               "const": "c09_check_const", "func": "c09_check_func"}
 COQ_SHOW = {"rle": "c09_show_rle", "dict": "c09_show_dict", "sparse": "c09_show_sparse",
-            "const": "c09_show_const", "func": "c09_show_func"}
+            "const": "c09_show_const", "func": "c09_show_func", "session": "c09_show_session"}
+COQ_CHECKS["session"] = "c09_check_session"
 # long cases (the boundary sweep) go to four extra shards per column, same check functions, so that they are
 # type-checked in parallel instead of all landing in one cases file
 _SPREAD = 4
@@ -67,6 +71,10 @@ RULE = ("real RLEColumn / DictionaryColumn / SparseColumn / ConstantColumn / Fun
         "pool value / other width / other numeric kind / out-of-range; element-wise functions *2, +1, upper, +'xy', not on the stored values; "
         "multi-step cases run a script on ONE column object (materialize / function on the stored values in place or by rebinding / overwrite "
         "a returned array / change length / materialize again) and are judged by the oracle only; "
+        "every column is also built under every way of declaring its type (enum member, plain / lower-case name, VARCHAR[n], BLOB[n], DECIMAL(p,s), ARRAY<T>) and other "
+        "descriptive constructor arguments; sessions create several constant / function column objects that share ONE binding function object per name, with configurations "
+        "that compare equal but are of different kinds (1 / 1.0 / True, 0 / 0.0 / -0.0 / False, 2**53 / 2.0**53), a counter binding, lengths given or defaulted, and expand / "
+        "rebind configuration or length / overwrite a returned array / expand again (evaluated in Coq by sess_run and judged by the oracle); "
         "boundary sweep (fixed permutations + seeded sizes): number of dictionary entries, run length, number of runs, sparse index / total length / "
         "number of stored values, constant and function length just below, at and above 2^7, 2^8, 2^15, 2^16; "
         "a case is non-trivial when it expanded without raising and holds >= 2 elements (constant/function: length >= 1); distinct by canonical JSON")
@@ -302,23 +310,50 @@ def _scribble(arr):
     return True
 
 
+# how a column's type can be declared: ["enum", member name] | ["name", spelling]; everything the five columns expand to
+# must be independent of it (and of the other descriptive constructor arguments in "extra")
+_DECL_TYPES = ([["enum", n] for n in ("VARCHAR", "BLOB", "INTEGER", "DOUBLE", "DECIMAL", "ARRAY", "BOOLEAN", "TIMESTAMP", "JSONB", "NULL")] +
+               [["name", n] for n in ("VARCHAR", "varchar", "VARCHAR[20]", "varchar[2]", "VARCHAR[0]", "VARCHAR[65537]", "BLOB", "BLOB[4]", "blob[3]",
+                                      "DECIMAL(10,2)", "DECIMAL", "ARRAY<INTEGER>", "INTEGER", "double", "BOOLEAN", "TIMESTAMP", "STRUCT")])
+_DECL_EXTRA = [{}, {}, {"nullable": False}, {"precision": 7, "scale": 2}, {"description": "d", "aliases": ["a", "b"]}, {"element_type": "INTEGER"}]
+
+
+def _decl_kwargs(decl):
+    from orso.types import OrsoTypes
+    if not decl:
+        return {"type": OrsoTypes.VARCHAR}
+    how, name = decl["type"]
+    kw = dict(decl.get("extra") or {})
+    kw["type"] = OrsoTypes[name] if how == "enum" else name
+    return kw
+
+
+def _decl_size(decl):
+    """the size written into the declared type name (VARCHAR[20] -> 20), else None"""
+    import re
+    if not decl or decl["type"][0] != "name":
+        return None
+    m = re.search(r"\[(\d+)\]", decl["type"][1])
+    return int(m.group(1)) if m else None
+
+
 def _build(case):
     from orso.schema import ConstantColumn, DictionaryColumn, FunctionColumn, RLEColumn, SparseColumn
-    from orso.types import OrsoTypes
 
     kind = case["col"]
+    kw = _decl_kwargs(case.get("decl"))
     if kind == "func":
-        return FunctionColumn(name="c", type=OrsoTypes.VARCHAR, binding=_binding(case["binding"]),
-                              configuration=tuple(dec(v) for v in case["cfg"]), length=case["length"])
+        return FunctionColumn(name="c", binding=_binding(case["binding"]),
+                              configuration=tuple(dec(v) for v in case["cfg"]), length=case["length"], **kw)
     if kind == "const":
-        return ConstantColumn(name="c", type=OrsoTypes.VARCHAR, value=dec(case["value"]), length=case["length"])
+        return ConstantColumn(name="c", value=dec(case["value"]), length=case["length"], **kw)
     values = [dec(v) for v in case["values"]]
     if kind == "rle":
-        return RLEColumn(name="c", type=OrsoTypes.VARCHAR, values=values)
+        return RLEColumn(name="c", values=values, **kw)
     if kind == "dict":
-        return DictionaryColumn(name="c", type=OrsoTypes.VARCHAR, values=values)
+        return DictionaryColumn(name="c", values=values, **kw)
     if kind == "sparse":
-        return SparseColumn(name="c", type=OrsoTypes.VARCHAR, values=values, default_value=dec(case["default"]))
+        return SparseColumn(name="c", values=values, default_value=dec(case["default"]), **kw)
     raise KeyError(kind)
 
 
@@ -363,8 +398,142 @@ def _observe_script(case):
             return {"steps": steps, "raise": type(e).__name__, "stage": stage, "at": at}
 
 
+# ---- sessions: several constant / function column OBJECTS that share their binding FUNCTION objects -----------------
+#   {"col": "session", "steps": [["new", {"kind": "func", "binding": B, "cfg": [V..], "length": n|null, "decl": D|null}]
+#                                | ["new", {"kind": "const", "value": V, "length": n|null, "decl": D|null}]
+#                                | ["mat", i] | ["cfg", i, [V..]] | ["length", i, n] | ["scribble", i]]}
+#   B = "first" | "last" | "null" | "counter" (one itertools.count per session, shared by its columns); length null = not passed
+#   Observed: {"steps": [{"mat": [V], "mat_dtype": str} | {}]} plus "raise"/"stage"/"at" if a step raised.
+def _session_bindings():
+    """ONE function object per binding name for the whole session (a memo keyed on the function would be hit)"""
+    counter = itertools.count()
+    return {"first": _binding("first"), "last": _binding("last"), "null": _binding("null"), "counter": counter.__next__}
+
+
+def _observe_session(case):
+    import warnings
+    from orso.schema import ConstantColumn, FunctionColumn
+
+    steps, cols, last = [], [], {}
+    stage, at = "new", -1
+    binds = _session_bindings()
+    with warnings.catch_warnings():
+        warnings.simplefilter("ignore")
+        try:
+            for at, st in enumerate(case["steps"]):
+                op = st[0]
+                stage = op
+                if op == "new":
+                    c = st[1]
+                    kw = _decl_kwargs(c.get("decl"))
+                    if c.get("length") is not None:
+                        kw["length"] = c["length"]
+                    if c["kind"] == "func":
+                        cols.append(FunctionColumn(name="c%d" % len(cols), binding=binds[c["binding"]],
+                                                   configuration=tuple(dec(v) for v in c["cfg"]), **kw))
+                    else:
+                        cols.append(ConstantColumn(name="c%d" % len(cols), value=dec(c["value"]), **kw))
+                    steps.append({})
+                elif op == "mat":
+                    m = cols[st[1]].materialize()
+                    last[st[1]] = m
+                    steps.append({"mat": [enc(x) for x in m.tolist()], "mat_dtype": str(m.dtype)})
+                elif op == "cfg":
+                    cols[st[1]].configuration = tuple(dec(v) for v in st[2])
+                    steps.append({})
+                elif op == "length":
+                    cols[st[1]].length = st[2]
+                    steps.append({})
+                elif op == "scribble":
+                    try:
+                        _scribble(last.get(st[1]))
+                    except (ValueError, TypeError):
+                        pass
+                    steps.append({})
+                else:
+                    raise KeyError(op)
+            return {"steps": steps}
+        except KeyError:
+            raise
+        except Exception as e:
+            return {"steps": steps, "raise": type(e).__name__, "stage": stage, "at": at}
+
+
+def _session_state(case, upto=None):
+    """the oracle's own bookkeeping: yields (step index, step, expected expansion or None)"""
+    cols, ticks = [], 0
+    for i, st in enumerate(case["steps"]):
+        op, want = st[0], None
+        if op == "new":
+            c = st[1]
+            cols.append({"kind": c["kind"], "binding": c.get("binding"), "cfg": [dec(v) for v in c.get("cfg", [])],
+                         "value": dec(c["value"]) if c["kind"] == "const" else None,
+                         "length": 1 if c.get("length") is None else c["length"]})
+        elif op == "mat":
+            c = cols[st[1]]
+            if c["kind"] == "const":
+                v = c["value"]
+            elif c["binding"] == "counter":
+                v, ticks = ticks, ticks + 1
+            else:
+                v = _binding(c["binding"])(*c["cfg"])
+            want = [v] * c["length"]
+        elif op == "cfg":
+            cols[st[1]]["cfg"] = [dec(v) for v in st[2]]
+        elif op == "length":
+            cols[st[1]]["length"] = st[2]
+        yield i, st, want
+
+
+def _oracle_session(case, obs):
+    """every expansion is the column's own current value (its binding applied to its own current configuration, now)
+    repeated to its own current length - whatever was declared, created, expanded or overwritten before"""
+    steps = obs["steps"]
+    failed_at = obs.get("at") if "raise" in obs else None
+    for i, st, want in _session_state(case):
+        if failed_at is not None and i == failed_at:
+            return f"step {i} {st!r} of the session raised {obs['raise']}"
+        if want is not None:
+            why = _seq_same([dec(x) for x in steps[i]["mat"]], want, f"step {i} (expand column {st[1]}) of session {case['steps']!r}")
+            if why:
+                return why
+    return None
+
+
+def _coq_session(case, obs):
+    bind = {"first": "(SPure BFirst)", "last": "(SPure BLast)", "null": "(SPure BConstNull)", "counter": "SCounter"}
+    terms, outs = [], []
+    failed_at = obs.get("at") if "raise" in obs else None
+    for i, st in enumerate(case["steps"]):
+        op = st[0]
+        if failed_at is not None and i == failed_at:
+            # a raising expansion is an answer the model can give; anything else raising is not
+            if op == "mat":
+                terms.append("(SMat %s)" % L.nat(st[1]))
+            outs.append("(Raise %s : result (list val * dtype))" % (_EXN.get(obs["raise"], "OtherError") if op == "mat" else "OtherError"))
+            break
+        if op == "new":
+            c = st[1]
+            size = _decl_size(c.get("decl"))
+            k = ("(KFunc %s %s)" % (bind[c["binding"]], coq_vals([v for v in c["cfg"]]))) if c["kind"] == "func" else "(KConst %s)" % coq_val(c["value"])
+            terms.append("(SNew (mkscol %s %s %s))" % (k, L.Z(1 if c.get("length") is None else c["length"]),
+                                                      "None" if size is None else "(Some %s)" % L.N(size)))
+        elif op == "mat":
+            terms.append("(SMat %s)" % L.nat(st[1]))
+            o = obs["steps"][i]
+            outs.append("(Ok (%s, %s) : result (list val * dtype))" % (coq_vals(o["mat"]), coq_dtype(o["mat_dtype"])))
+        elif op == "cfg":
+            terms.append("(SSetCfg %s %s)" % (L.nat(st[1]), coq_vals(st[2])))
+        elif op == "length":
+            terms.append("(SSetLen %s %s)" % (L.nat(st[1]), L.Z(st[2])))
+        # "scribble": the caller writes into an array it was handed; the model has no such array, nothing to say
+    return ("session", "((%s : list sstep), (%s : list (result (list val * dtype))))" % (L.lst(terms), L.lst(outs)))
+
+
 def observe(case):
     import warnings
+    if case["col"] == "session":
+        return _observe_session(case)
     from orso.schema import ConstantColumn, DictionaryColumn, FunctionColumn, RLEColumn, SparseColumn
     from orso.types import OrsoTypes
 
@@ -376,26 +545,10 @@ def observe(case):
     with warnings.catch_warnings():
         warnings.simplefilter("ignore")
         try:
-            if kind == "func":
-                col = FunctionColumn(name="c", type=OrsoTypes.VARCHAR, binding=_binding(case["binding"]),
-                                     configuration=tuple(dec(v) for v in case["cfg"]), length=case["length"])
-            else:
-                if kind == "const":
-                    col = ConstantColumn(name="c", type=OrsoTypes.VARCHAR, value=dec(case["value"]), length=case["length"])
-                    aux = []
-                else:
-                    values = [dec(v) for v in case["values"]]
-                    if kind == "rle":
-                        col = RLEColumn(name="c", type=OrsoTypes.VARCHAR, values=values)
-                        aux = [int(x) for x in col.lengths]
-                    elif kind == "dict":
-                        col = DictionaryColumn(name="c", type=OrsoTypes.VARCHAR, values=values)
-                        aux = [int(x) for x in col.encoding.tolist()]
-                    elif kind == "sparse":
-                        col = SparseColumn(name="c", type=OrsoTypes.VARCHAR, values=values, default_value=dec(case["default"]))
-                        aux = [int(x) for x in col.indices.tolist()]
-                    else:
-                        raise KeyError(kind)
+            col = _build(case)
+            if kind != "func":
+                aux = ([] if kind == "const" else [int(x) for x in col.lengths] if kind == "rle"
+                       else [int(x) for x in col.encoding.tolist()] if kind == "dict" else [int(x) for x in col.indices.tolist()])
                 out["values"] = [enc(x) for x in col.values.tolist()]
                 out["values_dtype"] = str(col.values.dtype)
                 out["aux"] = aux
@@ -532,6 +685,8 @@ def _oracle_script(case, obs):
 
 
 def oracle(case, obs):
+    if case["col"] == "session":
+        return _oracle_session(case, obs)
     if "script" in case:
         return _oracle_script(case, obs)
     kind = case["col"]
@@ -688,8 +843,21 @@ def known(case, obs):
         return None
     # the known misbehaviour: the colliding elements are treated as the default, nothing else is wrong
     d = dec(case["default"])
-    patched = dict(case, values=[enc(d) if hit(dec(v)) else v for v in case["values"]])
-    return fid if oracle(patched, obs) is None else None
+    # ... the default itself, or (int64 data against a float default: the array stays int64) the default as an int
+    repl = [d] + ([int(d)] if fid == "F-C09-4" and isinstance(d, float) else [])
+    fn = case.get("fn")
+    for r in repl:
+        patched = dict(case, values=[enc(r) if hit(dec(v)) else v for v in case["values"]])
+        if oracle(patched, obs) is None:
+            return fid
+        # the function is applied to the stored values only, so a colliding element comes back as the (converted) default
+        # itself; that differs from f(converted default) only where f fixes the float default by rounding (2.0**53 + 1)
+        if fn and "mat" in obs:
+            want = [r if hit(dec(v)) else _pyf(fn, dec(v)) for v in case["values"]]
+            stored_ok = oracle(dict(patched, fn=None), dict(obs, mat=patched["values"])) is None
+            if stored_ok and _seq_same([dec(x) for x in obs["mat"]], want, "") is None:
+                return fid
+    return None
 
 
 def known_still_fails(fid, witness):
@@ -751,6 +919,8 @@ def to_coq(case, obs):
 
 def _to_coq(case, obs):
     kind = case["col"]
+    if kind == "session":
+        return _coq_session(case, obs)
     if "script" in case:
         return None  # multi-step cases: judged by the oracle only (the pure model has no object identity to get stale)
     if obs.get("stage") == "fn":
@@ -780,6 +950,8 @@ def _to_coq(case, obs):
 def nontrivial_key(case, obs):
     if "raise" in obs:
         return None
+    if case["col"] == "session":
+        return repr(case["steps"]) if sum(1 for st in case["steps"] if st[0] == "mat") >= 2 else None
     if case["col"] in ("const", "func"):
         if case["length"] < 1:
             return None
@@ -821,6 +993,28 @@ def _scale_labels(case, obs):
 def classify(case, obs):
     kind = case["col"]
     yield "col:" + kind
+    if case.get("decl"):
+        yield "declared-type:" + case["decl"]["type"][0] + ("[size]" if _decl_size(case["decl"]) is not None else "")
+        for k in (case["decl"].get("extra") or {}):
+            yield "declared-extra:" + k
+    if kind == "session":
+        news = [st[1] for st in case["steps"] if st[0] == "new"]
+        yield "session:columns=%d" % len(news)
+        for c in news:
+            yield "session:" + c["kind"] + (":" + c["binding"] if c["kind"] == "func" else "")
+            if _decl_size(c.get("decl")) is not None:
+                yield "session:declared-size"
+            if c.get("length") is None:
+                yield "session:length-defaulted"
+        for st in case["steps"]:
+            if st[0] != "new":
+                yield "session-step:" + st[0]
+        cfgs = [tuple(dec(v) for v in c["cfg"]) for c in news if c["kind"] == "func"] + [tuple(dec(v) for v in st[2]) for st in case["steps"] if st[0] == "cfg"]
+        if any(a == b and [type(x) for x in a] != [type(x) for x in b] for a in cfgs for b in cfgs):
+            yield "session:equal-configurations-of-different-kinds"
+        if "raise" in obs:
+            yield "raised:" + obs["raise"] + "@" + obs["stage"]
+        return
     if "script" in case:
         yield "multi-step"
         yield "multi-step:" + kind
@@ -1098,6 +1292,102 @@ def _scale_random(rng):
     return {"col": "func", "binding": rng.choice(["first", "last"]), "cfg": [enc(v)], "length": size()}
 
 
+# ---- sessions and declared types -------------------------------------------------------------------------------
+# values that compare (and hash) equal but are of different kinds: what a memo keyed on the arguments confuses
+_EQ_GROUPS = [(1, 1.0, True), (0, 0.0, -0.0, False), (2 ** 53, 2.0 ** 53), (3, 3.0), (-7, -7.0)]
+
+
+def _decl(i, extra=0):
+    d = {"type": _DECL_TYPES[i % len(_DECL_TYPES)]}
+    if _DECL_EXTRA[extra % len(_DECL_EXTRA)]:
+        d["extra"] = _DECL_EXTRA[extra % len(_DECL_EXTRA)]
+    return d
+
+
+def _fcol(binding, cfg, length=None, decl=None):
+    return ["new", {"kind": "func", "binding": binding, "cfg": [enc(v) for v in cfg], "length": length, "decl": decl}]
+
+
+def _ccol(value, length=None, decl=None):
+    return ["new", {"kind": "const", "value": enc(value), "length": length, "decl": decl}]
+
+
+def _sessions_fixed(tier):
+    sized = [{"type": ["name", "VARCHAR[20]"]}, {"type": ["name", "BLOB[4]"]}, None]
+    k = 0
+    for g in _EQ_GROUPS:
+        for x, y in itertools.permutations(g, 2):
+            if type(x) is type(y) and x == y and math.copysign(1, x) == math.copysign(1, y):
+                continue
+            k += 1
+            # two column objects, one binding function, arguments equal but of another kind
+            yield {"col": "session", "steps": [_fcol("first", [x], 2), _fcol("first", [y], 3, sized[k % 3]), ["mat", 0], ["mat", 1], ["mat", 0]]}
+            # one column object, its configuration replaced between two expansions
+            yield {"col": "session", "steps": [_fcol("first", [x], 2, sized[(k + 1) % 3]), ["mat", 0], ["cfg", 0, [enc(y)]], ["mat", 0], ["scribble", 0], ["mat", 0]]}
+            yield {"col": "session", "steps": [_fcol("last", ["s", x], 1), ["mat", 0], _fcol("last", ["s", y]), ["mat", 1], ["length", 1, 2], ["mat", 1], ["mat", 0]]}
+    # a binding with state: every expansion takes the function's value at that time
+    for n in (0, 1, 2):
+        yield {"col": "session", "steps": [_fcol("counter", [], 2), _fcol("counter", [], n, sized[n]), ["mat", 0], ["mat", 0], ["mat", 1],
+                                           ["length", 0, 0], ["mat", 0], ["scribble", 1], ["mat", 1], _fcol("first", [0], 2), ["mat", 2], ["mat", 1]]}
+    # every way of declaring the type x length given / left at its default, constant and function column side by side
+    for i in range(len(_DECL_TYPES)):
+        for j, n in enumerate((None, 0, 1, 3) if tier == "quick" else (None, 0, 1, 2, 3, 7, 21)):
+            v = ("abc", 3, 1.5, True, None)[(i + j) % 5]
+            yield {"col": "session", "steps": [_ccol(v, n, _decl(i, j)), _fcol("first", [v], n, _decl(i, i + j)), ["mat", 0], ["mat", 1],
+                                               ["length", 0, (n or 0) + 1], ["mat", 0], ["mat", 1]]}
+
+
+def _random_session(rng):
+    g = rng.choice(_EQ_GROUPS)
+    pool = list(g) + [rng.choice(["a", "abc", "", None, 1.5, NAN, 2 ** 40])]
+    steps, ncols = [], 0
+    for _ in range(rng.randint(4, 11)):
+        r = rng.random()
+        if ncols == 0 or (r < 0.25 and ncols < 4):
+            decl = _decl(rng.randrange(len(_DECL_TYPES)), rng.randrange(len(_DECL_EXTRA))) if rng.random() < 0.6 else None
+            n = rng.choice([None, 0, 1, 2, 3, 5])
+            if rng.random() < 0.25:
+                steps.append(_ccol(rng.choice(pool), n, decl))
+            else:
+                b = rng.choice(["first", "first", "first", "last", "null", "counter"])
+                cfg = [] if b == "counter" else [rng.choice(pool) for _ in range(rng.choice([1, 1, 2]))]
+                steps.append(_fcol(b, cfg, n, decl))
+            ncols += 1
+        else:
+            i = rng.randrange(ncols)
+            c = [st for st in steps if st[0] == "new"][i][1]
+            if r < 0.65:
+                steps.append(["mat", i])
+            elif r < 0.8 and c["kind"] == "func" and c["binding"] != "counter":
+                steps.append(["cfg", i, [enc(rng.choice(pool)) for _ in range(len(c["cfg"]) or 1)]])
+            elif r < 0.9:
+                steps.append(["length", i, rng.choice([0, 1, 2, 4])])
+            else:
+                steps.append(["scribble", i])
+    steps += [["mat", i] for i in range(ncols)]
+    return {"col": "session", "steps": steps}
+
+
+def _declared_fixed(tier):
+    """single-step cases of all five columns under every way of declaring the type"""
+    for i in range(len(_DECL_TYPES)):
+        for j, n in enumerate((0, 1, 3)):
+            v = (3, "abc", 1.5, True, None)[(i + j) % 5]
+            yield {"col": "const", "value": enc(v), "length": n, "fn": None, "decl": _decl(i, j)}
+            yield {"col": "func", "binding": "first", "cfg": [enc(v)], "length": n, "decl": _decl(i, j + 1)}
+        a = _ALPHABETS_DICT[i % 3]
+        seq = [a[t] for t in (0, 1, 2, 2, 0, 0, 1)]
+        yield {"col": "rle", "values": [enc(v) for v in seq], "fn": None, "decl": _decl(i, i)}
+        yield {"col": "dict", "values": [enc(v) for v in seq], "fn": None, "decl": _decl(i, i + 1)}
+        yield dict(_sparse(seq, a[2]), decl=_decl(i, i + 2))
+
+
+def _with_random_decl(rng, case, p):
+    if rng.random() < p:
+        case = dict(case, decl=_decl(rng.randrange(len(_DECL_TYPES)), rng.randrange(len(_DECL_EXTRA))))
+    return case
+
+
 def exhaustive(tier):
     top = 4 if tier == "quick" else 5
 
@@ -1129,6 +1419,10 @@ def exhaustive(tier):
             for v in (3, "abc", None, 1.5, True):
                 yield {"col": "const", "value": enc(v), "length": n, "fn": None}
                 yield {"col": "func", "binding": "first", "cfg": [enc(v)], "length": n}
+        for c in _declared_fixed(tier):
+            yield c
+        for c in _sessions_fixed(tier):
+            yield c
         for c in _scale_fixed(tier):
             yield c
 
@@ -1323,9 +1617,11 @@ def _random_script_case(rng):
 def generate(rng, tier):
     count = 1500 if tier == "quick" else 30000
     for _ in range(count):
-        yield _random_case(rng)
+        yield _with_random_decl(rng, _random_case(rng), 0.3)
     for _ in range(count // 3):
-        yield _random_script_case(rng)
+        yield _with_random_decl(rng, _random_script_case(rng), 0.25)
+    for _ in range(count // 5):
+        yield _random_session(rng)
     for _ in range(24 if tier == "quick" else 300):
         yield _scale_random(rng)
 
@@ -1334,10 +1630,12 @@ def search(rng):
     while True:
         if rng.random() < 0.08:
             yield _scale_random(rng)
+        elif rng.random() < 0.25:
+            yield _random_session(rng)
         elif rng.random() < 0.4:
             yield _random_script_case(rng)
         else:
-            yield _random_case(rng, weights=(0.7, 0.8, 0.9, 0.95))
+            yield _with_random_decl(rng, _random_case(rng, weights=(0.7, 0.8, 0.9, 0.95)), 0.3)
 
 
 def shrink(case):
@@ -1351,7 +1649,32 @@ def shrink(case):
         yield cand
 
 
+def _shrink_session(case):
+    steps = case["steps"]
+    for i, st in enumerate(steps):
+        if st[0] != "new":
+            yield dict(case, steps=steps[:i] + steps[i + 1:])
+    news = [i for i, st in enumerate(steps) if st[0] == "new"]
+    for j, pos in enumerate(news):  # drop column j with everything that uses it, renumber the later ones
+        out = []
+        for i, st in enumerate(steps):
+            if i == pos or (st[0] != "new" and st[1] == j):
+                continue
+            out.append(st if st[0] == "new" or st[1] < j else [st[0], st[1] - 1] + list(st[2:]))
+        if out:
+            yield dict(case, steps=out)
+    for i, st in enumerate(steps):
+        if st[0] == "new" and (st[1].get("decl") or (st[1].get("length") or 0) > 1):
+            c = dict(st[1], decl=None) if st[1].get("decl") else dict(st[1], length=st[1]["length"] - 1)
+            yield dict(case, steps=steps[:i] + [["new", c]] + steps[i + 1:])
+
+
 def _shrink(case):
+    if case["col"] == "session":
+        yield from _shrink_session(case)
+        return
+    if case.get("decl"):
+        yield dict(case, decl=None)
     if "script" in case:
         sc = case["script"]
         for i in range(len(sc)):
